@@ -820,7 +820,11 @@ impl Transformer {
         let input = InputList::from_reader(reader)?;
         self.context.set_events(input.events.clone());
         let output = process_events(input, &mut self.context)?;
-        self.postprocess(output, writer)
+        // Building the root element can still fail: nothing reaches the writer
+        // unless the whole document does.
+        let mut buffer = Vec::new();
+        self.postprocess(output, &mut buffer)?;
+        writer.write_all(&buffer).map_err(SvgdxError::from_err)
     }
 
     fn write_root_svg(
